@@ -4,7 +4,9 @@ view(path) -> list of Site: every call/jmp rel32 and every RIP-relative operand 
 functions named in the symbol table (objdump -d; the position of the displacement inside the instruction is
 found by solving `next_ip + disp32 == printed target`, so no x86 length decoder is needed), every GOT slot and
 every pointer-sized word of .data/.data.rel.ro/.init_array/.fini_array that holds the address of a symbol
-(directly, or through an R_X86_64_RELATIVE dynamic relocation).  Nothing here shares code with linker-diff.
+(directly, or through an R_X86_64_RELATIVE dynamic relocation).  rel64_sites() adds the 8-byte RELATIVE words of a generated table
+(`.quad sym - . + A` = R_X86_64_PC64, `.quad sym@GOTOFF + A` = R_X86_64_GOTOFF64): the expected stored value S + A - P resp.
+S + A - _GLOBAL_OFFSET_TABLE_ is recomputed from the output's symbol table.  Nothing here shares code with linker-diff.
 """
 import re
 import struct
@@ -151,3 +153,57 @@ def retarget(e, data, site, new_target):
         else:
             b[fo:fo + 8] = struct.pack("<Q", new_target)
     return bytes(b)
+
+
+M64 = (1 << 64) - 1
+
+
+def rel64_sites(e, table_sym, entries):
+    """Sites of a generated table of 8-byte relative references.  entries: [(form, symbol, addend)] in table order, form in
+    {'pc64', 'gotoff64'}.  A site is returned only if the word the linker stored equals the value recomputed here from the output's symbols."""
+    syms = symbols(e)
+    if table_sym not in syms:
+        return [], [f"{table_sym} not in the symbol table"]
+    tab = syms[table_sym][0]
+    got = syms.get("_GLOBAL_OFFSET_TABLE_", (None,))[0]
+    sites, problems = [], []
+    for i, (form, name, addend) in enumerate(entries):
+        a = tab + 8 * i
+        if name not in syms or (form == "gotoff64" and got is None):
+            problems.append(f"entry {i}: {name} / GOT base not in the symbol table")
+            continue
+        base = a if form == "pc64" else got
+        want = (syms[name][0] + addend - base) & M64
+        have = e.u64(a)
+        if have != want:
+            problems.append(f"entry {i} ({form} {name}{addend:+d}): stored 0x{have:x}, expected 0x{want:x}")
+            continue
+        s = Site("rel64", table_sym, a, a, 8, syms[name][0])
+        s.form, s.addend, s.base, s.stored, s.target_name = form, addend, base, have, name
+        s.reloc = "R_X86_64_PC64" if form == "pc64" else "R_X86_64_GOTOFF64"
+        sites.append(s)
+    return sites, problems
+
+
+def corrupt_rel64(e, data, site, how, new_target=None, bit=None):
+    """how: 'high32-add' / 'high32-sub' (value +- 2^32), 'high32-bit' (flip bit `bit` in 32..63): only the HIGH 32 bits of the stored word change;
+    'retarget': the word is recomputed for new_target (another named symbol).  Returns (new file bytes, new stored value) or None."""
+    fo = e.vaddr_to_off(site.field_addr)
+    if fo is None:
+        return None
+    old = struct.unpack_from("<Q", data, fo)[0]
+    if how == "high32-add":
+        new = (old + (1 << 32)) & M64
+    elif how == "high32-sub":
+        new = (old - (1 << 32)) & M64
+    elif how == "high32-bit":
+        new = old ^ (1 << bit)
+    elif how == "retarget":
+        new = (old + new_target - site.target) & M64
+    else:
+        raise ValueError(how)
+    if new == old or (how.startswith("high32") and (new ^ old) & 0xFFFFFFFF):
+        return None
+    b = bytearray(data)
+    b[fo:fo + 8] = struct.pack("<Q", new)
+    return bytes(b), new
